@@ -1,4 +1,5 @@
 SPECIFICATION Spec
 CONSTANT K = 4
 INVARIANT Same
+INVARIANT Drift
 CHECK_DEADLOCK FALSE
